@@ -750,4 +750,60 @@ theorem pool_get_set_other (p : FlatPool) (i j : Nat) (k : Key) (hne : j ≠ i)
     have := Nat.mul_le_mul_right p.size (show i + 1 ≤ j by omega)
     rw [Nat.add_mul, Nat.one_mul] at this; omega
 
+/-- shape of a pool with `n` slots: buffer of `n*size` bytes, `n` stored lengths, each at most `size` -/
+def PoolInv (p : FlatPool) (n : Nat) : Prop :=
+  p.buf.length = n * p.size ∧ p.lens.length = n ∧ ∀ j, p.lens.getD j 0 ≤ p.size
+
+theorem poolInv_new (n size : Nat) (fixed : Bool) : PoolInv (FlatPool.new n size fixed) n := by
+  refine ⟨by simp [FlatPool.new], by simp [FlatPool.new], fun j => ?_⟩
+  simp only [FlatPool.new, List.getD_eq_getElem?_getD, List.getElem?_replicate]
+  by_cases hj : j < n
+  · cases fixed <;> simp [hj]
+  · simp [hj]
+
+theorem trySet_ok_cond {p : FlatPool} {fixed : Bool} {i : Nat} {k : Key} (h : (p.trySet fixed i k).2 = .ok) :
+    i < p.lens.length ∧ k.length ≤ p.size ∧ (p.trySet fixed i k).1 = p.set i k := by
+  unfold FlatPool.trySet at h ⊢
+  by_cases h1 : i ≥ p.lens.length
+  · simp [h1] at h
+  · simp only [h1, if_false] at h ⊢
+    by_cases h2 : (if fixed then k.length != p.size else decide (k.length > p.size)) = true
+    · simp [h2] at h
+    · simp only [h2, Bool.false_eq_true, if_false]
+      refine ⟨by omega, ?_, by trivial⟩
+      cases fixed
+      · simpa using h2
+      · simp at h2; omega
+
+theorem trySet_err {p : FlatPool} {fixed : Bool} {i : Nat} {k : Key} (h : (p.trySet fixed i k).2 ≠ .ok) :
+    (p.trySet fixed i k).1 = p := by
+  unfold FlatPool.trySet at h ⊢
+  by_cases h1 : i ≥ p.lens.length
+  · simp [h1]
+  · by_cases h2 : (if fixed then k.length != p.size else decide (k.length > p.size)) = true
+    · simp only [h1, h2, if_true, if_false]
+    · simp only [h1, h2, if_false, Bool.false_eq_true] at h
+      exact absurd rfl h
+
+theorem fit_of_inv {p : FlatPool} {n i : Nat} {k : Key} (hI : PoolInv p n) (hi : i < n) (hk : k.length ≤ p.size) :
+    i * p.size + k.length ≤ p.buf.length := by
+  have := Nat.mul_le_mul_right p.size (show i + 1 ≤ n by omega)
+  rw [Nat.add_mul, Nat.one_mul] at this
+  rw [hI.1]; omega
+
+theorem poolInv_trySet {p : FlatPool} {n : Nat} (hI : PoolInv p n) (fixed : Bool) (i : Nat) (k : Key) :
+    PoolInv (p.trySet fixed i k).1 n := by
+  by_cases h : (p.trySet fixed i k).2 = .ok
+  · obtain ⟨hi, hk, e⟩ := trySet_ok_cond h
+    rw [e]
+    have hfit := fit_of_inv hI (by rw [← hI.2.1]; exact hi) hk
+    refine ⟨?_, by simp [FlatPool.set, hI.2.1], fun j => ?_⟩
+    · simp only [FlatPool.set, List.length_append, List.length_take, List.length_drop]
+      have := hI.1; omega
+    · simp only [FlatPool.set]
+      by_cases e' : j = i
+      · subst e'; rw [getD_set_eq _ _ _ _ hi]; exact hk
+      · rw [getD_set_ne _ _ _ _ _ e']; exact hI.2.2 j
+  · rw [trySet_err h]; exact hI
+
 end BfeVerif.C20
